@@ -232,14 +232,11 @@ def unit_correspondence(chk, model, variant, nseq):
         mo = kv(ml)
         rep = {"variant": variant, "nb": nb, "capacity": c, "ops": ops, "kind": kind or "disciplined", "impl": im, "model": ml[:3000],
                "how": "echo 'arena %d %d <ops>' | h_unit ; echo 'arenamem %d %d <r lines joined by ,> <ops>' | model_runner" % (nb, c, nb, c)}
-        if mo["status"] == "bad dirty_zero":
-            # the model: a ZERO_MEMORY allocation is served from spare capacity that was never zeroed (arena.c:153-160);
-            # what the real arena returns is whatever malloc left there
-            chk.add("model_undetermined_dirty_zero")
+        if mo.get("pinned") == "dirty_zero":
+            # a ZERO_MEMORY allocation served from spare capacity left by a growth for a plain write: the pinned arena.c
+            # returned whatever malloc left there (fixed since); a reappearance shows as a memory/image difference below
+            chk.add("zeroed_allocations_from_unzeroed_spare_capacity")
             dirty.setdefault(ops, []).append((c, nb))
-            if kind is None:
-                chk.violation("unit-corr", "generator produced a zeroed allocation after a plain write", rep, found_input=False)
-            continue
         if mo["status"] != "ok":
             chk.violation("unit-corr", "model does not run a sequence the real arena runs (%s): %s" % (variant, ml[:200]), rep, found_input=False)
             continue
@@ -267,7 +264,12 @@ def unit_correspondence(chk, model, variant, nseq):
             elif mo.get("aabs") != mo.get("abs") or mo.get("arelocs") != mo.get("relocs"):
                 bad.append("abs differs from the address-free run (contradicts abs_address_free)")
             images.setdefault(ops, set()).add(im.get("image"))
-        if bad:
+        if bad and mo.get("pinned") == "dirty_zero" and bad[0].startswith("memory image"):
+            chk.violation("arena-zeroed-allocation-not-zeroed",
+                          "yr_arena_allocate_zeroed_memory/yr_arena_allocate_struct returned non-zero memory (spare capacity left by a growth "
+                          "for yr_arena_write_data is not zeroed; the model of the current arena.c says zeros, the pinned model says indeterminate) "
+                          "(%s, capacity %d)" % (variant, c), rep, found_input=True)
+        elif bad:
             chk.violation("unit-corr", "real arena and model differ (%s, capacity %d, %s): %s" % (variant, c, kind or "disciplined", "; ".join(bad)),
                           rep, found_input=True)
         else:
@@ -275,16 +277,8 @@ def unit_correspondence(chk, model, variant, nseq):
         if len(set(a.split("/")[0] for a in im["r"])) > 1:
             moved += 1
         nontriv.add((kind, mo.get("found"), min(len(im["r"]), 6), len(set(a.split("/")[0] for a in im["r"])) > len(set((im.get("bases") or "").split(","))), mo.get("disc")))
-    for ops, runs in dirty.items():
-        if len(set(allimg[ops].values())) > 1:
-            chk.violation("arena-zeroed-allocation-not-zeroed",
-                          "yr_arena_allocate_zeroed_memory/yr_arena_allocate_struct returned non-zero memory (spare capacity left by a growth "
-                          "for yr_arena_write_data is not zeroed): the same operations give different saved bytes at different initial capacities",
-                          {"variant": variant, "ops": ops, "nb": runs[0][1], "capacity": runs[0][0],
-                           "capacities_where_model_says_indeterminate": [c for c, _ in runs],
-                           "images_by_capacity": allimg[ops], "how": "echo 'arena <nb> <capacity> <ops>' | h_unit"}, found_input=True)
     for ops, s in images.items():
-        if len(s) > 1 and ops not in dirty:
+        if len(s) > 1:
             chk.violation("unit-capacity", "real arena: same disciplined operations, different capacities, different saved bytes (%s)" % variant,
                           {"ops": ops, "images": sorted(x or "" for x in s)}, found_input=True)
     chk.add("unit_sequences_with_relocation", moved)
@@ -343,6 +337,10 @@ def compiler_sweep(chk, variant, ncases, extra_caps):
     for (jid, cmds) in jobs:
         cid, c = jid.split("@")
         lines = [l for l in out.get(jid, ["missing"]) if not l.startswith("leakcheck")]
+        if any(l.startswith("leakcheck") and l != "leakcheck 0" for l in out.get(jid, [])):
+            chk.cov.setdefault("leaking_cases_not_gating", [])
+            if len(chk.cov["leaking_cases_not_gating"]) < 3:
+                chk.cov["leaking_cases_not_gating"].append({"case": jid, "source": [x[2] for x in cases if x[0] == cid][0][:1500]})
         by.setdefault(cid, []).append((int(c), lines))
     src_of = {cid: (cmds, src) for cid, cmds, src in cases}
     ok = 0
@@ -363,7 +361,10 @@ def compiler_sweep(chk, variant, ncases, extra_caps):
             else:
                 ok += 1
     reports = ASAN_RE.findall(err)
-    mem = [r for r in reports if "AddressSanitizer" in r]
+    mem = [r for r in reports if "AddressSanitizer" in r and "leaked" not in r]
+    leaks = [r for r in reports if "leaked" in r]
+    if leaks:
+        chk.note(leak_reports_seen_not_gating=sorted(set(leaks))[:4])   # leaks are C07/C16's business
     if mem:
         chk.violation("capacity:asan", "AddressSanitizer report while compiling/scanning at a small initial arena size (%s): %s" % (variant, mem[0]),
                       {"variant": variant, "reports": sorted(set(mem))[:10], "stderr_tail": err[-3000:]}, found_input=False)
